@@ -377,7 +377,7 @@ func kCatalogue(rng *rand.Rand, nrand int) []*big.Int {
 func triple(r *mon.Run, c Case, ks []*big.Int) {
 	rng := r.Rng(c.Stream)
 	cat := gen.ScalarCatalogue()
-	for it := 0; it < 12; it++ {
+	for it := 0; it < 21; it++ {
 		a := ks[rng.IntN(len(ks))]
 		if it%3 == 0 {
 			a = gen.RandModL(rng)
@@ -397,12 +397,63 @@ func triple(r *mon.Run, c Case, ks []*big.Int) {
 		}
 		// C = aA + bB + T_j + zB
 		Cref := A.Ref.Mul(a).Add(ref.B.Mul(new(big.Int).Mod(b, L))).Add(gen.Tors[tj]).Add(ref.B.Mul(z))
-		Clib := gx.Rescale(gen.LibPoint(ref.Encode(Cref)), rng)
 		Alib := gx.Rescale(A.Lib, rng)
+		rel := ""
+		sameObject := false
+		if it >= 12 {
+			// related operands: C is chosen first, as a group element RELATED to A or B (equal, negative, double, sum,
+			// the base point, the identity), and b is solved for: b = log(C) - a*x + z. Independent random C never
+			// stands in any relation to A, and shortcuts for "C is A" / "C is B" are taken only here
+			var ck *big.Int
+			tk := ti
+			switch rng.IntN(3) { // true and false equations for every relation
+			case 0:
+				z = big.NewInt(0)
+			case 1:
+				z = big.NewInt(1)
+			default:
+				z = gen.RandModL(rng)
+			}
+			switch it - 12 {
+			case 0:
+				rel, ck = "C=A", xk
+			case 1:
+				rel, ck, sameObject = "C=A (the same object)", xk, true
+			case 2:
+				rel, ck, tk = "C=-A", new(big.Int).Neg(xk), (8-ti)%8
+			case 3:
+				rel, ck, tk = "C=2A", new(big.Int).Lsh(xk, 1), (2*ti)%8
+			case 4:
+				rel, ck, tk = "C=B", big.NewInt(1), 0
+			case 5:
+				rel, ck, tk = "C=-B", big.NewInt(-1), 0
+			case 6:
+				rel, ck, tk = "C=O", big.NewInt(0), 0
+			case 7:
+				rel, ck = "C=A+B", new(big.Int).Add(xk, big.NewInt(1))
+			default:
+				rel, ck, tk = "C=A+T", xk, (ti+1+int64(rng.IntN(7)))%8
+			}
+			ck = new(big.Int).Mod(ck, L)
+			b = new(big.Int).Mod(new(big.Int).Add(new(big.Int).Sub(ck, new(big.Int).Mul(a, xk)), z), L)
+			Cref = ref.B.Mul(ck).Add(gen.Tors[tk])
+			tj = tk
+		}
+		Clib := gx.Rescale(gen.LibPoint(ref.Encode(Cref)), rng)
+		if sameObject {
+			Clib = Alib
+		}
 		want := z.Sign() == 0
 		sa, sb := sc(a), sc(b)
 		det := func() string {
-			return fmt.Sprintf("a=%x b=%x A=[%x]B+T_%d C=aA+bB+T_%d+[%x]B", a, b, xk, ti, tj, z)
+			return fmt.Sprintf("a=%x b=%x A=[%x]B+T_%d C=aA+bB+T_%d+[%x]B %s", a, b, xk, ti, tj, z, rel)
+		}
+		if rel != "" {
+			r.Hist("triple/related-operands/" + rel)
+			// self-check of the construction: aA + bB - C = zB up to torsion
+			if d := A.Ref.Mul(a).Add(ref.B.Mul(b)).Add(Cref.Neg()).Mul(big.NewInt(8)); !bytes.Equal(ref.Encode(d), ref.Encode(ref.B.Mul(new(big.Int).Mod(new(big.Int).Lsh(z, 3), L)))) {
+				mon.Fatalf("ORACLE: related-operand construction is wrong (%s)", rel)
+			}
 		}
 		r.Eval([]byte(det()))
 		r.Journal("c16 triple %s", det())
